@@ -23,8 +23,8 @@ GenQuickConfigs ==
 
 ThoroughConfigs ==
     { Cfg(st, s0, mn, 4, mm, mr, t[1], t[2], pol, 0) :
-        st \in {"natural", "secant"}, s0 \in {1, 4, -2, -8, 16}, mn \in {1, 2}, mm \in {0, 1, 2, 4, 5},
-        mr \in {0, 1, 3}, t \in {<<-100, 100>>, <<-3, 5>>, <<0, 2>>, <<-9, 0>>},
+        st \in {"natural", "secant"}, s0 \in {1, 4, -2, -8, 16}, mn \in {1, 2}, mm \in {0, 1, 2, 4},
+        mr \in {0, 1, 2}, t \in {<<-100, 100>>, <<-3, 5>>, <<-9, 0>>},
         pol \in {"none", "quarter", "raise", "double"} }
 
 \* emitted from an INVARIANT so that every reachable terminal state prints exactly once
